@@ -407,6 +407,8 @@ pub fn pipe(sh: &Shared, e: &Sexp) -> Option<Ob> {
   Some(match (h, a.len()) {
     ("just", 1) => observables::just(parse_data(&a[0])?),
     ("from_iter", _) => observables::from_iter(a.iter().map(parse_data).collect::<Option<Vec<_>>>()?.into_iter()),
+    // the same items through an iterator ADAPTOR (size_hint lower bound 0, not ExactSizeIterator, lazily evaluated)
+    ("from_iter_lazy", _) => observables::from_iter(a.iter().map(parse_data).collect::<Option<Vec<_>>>()?.into_iter().filter(|_| true)),
     ("range", 2) => observables::range(a[0].int()?, a[1].int()?).map(V::int),
     ("empty", 0) => observables::empty(),
     ("never", 0) => observables::never(),
